@@ -10,6 +10,13 @@
 (* of graphql/executor/executor.go that calls the mutator and then parses  *)
 (* the resulting query text.                                               *)
 (*                                                                         *)
+(* The LRU is the machine of Lru.tla: its operators live in LruOps.tla and *)
+(* are used here unchanged, and CacheIsLru (checked by TLC) states that    *)
+(* every step of this machine with kind = "lru" is a stutter, one Get or   *)
+(* one Add of that machine - so what Lru.tla establishes for the cache     *)
+(* (a Get returns the value most recently Added under that very key or a   *)
+(* miss, also when the cache is full and evicts) carries over.             *)
+(*                                                                         *)
 (* One action per request form.  A request performs AT MOST ONE operation  *)
 (* on the shared cache (a Get when the query string is empty, an Add after *)
 (* the hash comparison succeeded), so the request's linearization point is *)
@@ -39,7 +46,7 @@
 (* verdict on the real code is PropRel evaluated by TLC on the recorded    *)
 (* behaviour (ApqPropTrace).                                               *)
 (***************************************************************************)
-EXTENDS Integers, Sequences, FiniteSets
+EXTENDS LruOps   \* (Integers, Sequences, FiniteSets + the LRU operators)
 
 CONSTANTS
   \* @type: Set(Str);
@@ -115,21 +122,17 @@ NoOps == <<>>
 ----------------------------------------------------------------------------
 (* The cache implementations *)
 
-\* @type: (Seq(Str), Str) => Seq(Str);
-Touch(ord, k) == <<k>> \o SelectSeq(ord, LAMBDA x : x # k)
-
 Hit(k) == k \in DOMAIN cache
 
 \* Cache.Get(k): the LRU moves a found key to the front; the map does nothing.
-OrderAfterGet(k) == IF kind = "lru" /\ Hit(k) THEN Touch(order, k) ELSE order
+OrderAfterGet(k) == IF kind = "lru" THEN LruOrderAfterGet(cache, order, k) ELSE order
 
 \* Cache.Add(k, v): insert or overwrite; the LRU moves k to the front and,
-\* when over capacity, removes the entry at the back.
-AddOrder(k)      == IF kind = "lru" THEN Touch(order, k) ELSE order
-Evicts(k)        == kind = "lru" /\ Len(AddOrder(k)) > cap
-Victim(k)        == AddOrder(k)[Len(AddOrder(k))]
-OrderAfterAdd(k) == IF Evicts(k) THEN SubSeq(AddOrder(k), 1, cap) ELSE AddOrder(k)
-DomAfterAdd(k)   == (DOMAIN cache \cup {k}) \ (IF Evicts(k) THEN {Victim(k)} ELSE {})
+\* when over capacity, removes the entry at the back (LruOps).
+Evicts(k)        == kind = "lru" /\ LruEvicts(order, k, cap)
+Victim(k)        == LruVictim(order, k)
+OrderAfterAdd(k) == IF kind = "lru" THEN LruOrderAfterAdd(order, k, cap) ELSE order
+DomAfterAdd(k)   == IF kind = "lru" THEN LruDomAfterAdd(DOMAIN cache, order, k, cap) ELSE DOMAIN cache \cup {k}
 CacheAfterAdd(k, v) == [h \in DomAfterAdd(k) |-> IF h = k THEN v ELSE cache[h]]
 
 ----------------------------------------------------------------------------
@@ -257,10 +260,16 @@ WasSent == History => \A h \in DOMAIN cache : <<h, cache[h]>> \in sent
 \* The LRU bookkeeping is consistent (implementation level).
 LruOK ==
   /\ kind = "map" => order = <<>>
-  /\ kind = "lru" =>
-       /\ Len(order) <= cap
-       /\ {order[i] : i \in DOMAIN order} = DOMAIN cache
-       /\ Cardinality(DOMAIN cache) = Len(order)
+  /\ kind = "lru" => LruWellFormed(order, cache, cap)
+
+\* The "lru" cache of this machine IS the machine of Lru.tla: every step is a
+\* stutter of the cache, one Get or one Add of that machine (composition).
+CacheStepIsLru ==
+  kind = "lru" =>
+     \/ UNCHANGED <<order, cache>>
+     \/ \E h \in Hashes : LruIsGet(order, cache, h, order', cache')
+     \/ \E h \in Hashes, t \in Texts : LruIsAdd(order, cache, cap, h, t, order', cache')
+CacheIsLru == [][CacheStepIsLru]_vars
 
 TypeOK ==
   /\ kind \in Kinds
